@@ -179,11 +179,11 @@ def build(verbose=False):
     try: return _build_locked(h, bdir, stamp, verbose)
     finally: fcntl.flock(lock, fcntl.LOCK_UN); lock.close()
 
-KEEP_BUILDS = 6
+KEEP_BUILDS = 3
 def _build_locked(h, bdir, stamp, verbose):
     if os.path.exists(stamp): return bdir
     t0 = time.time()
-    # prune: unfinished directories and all but the most recently used finished ones (never one used in the last 2 hours)
+    # prune: unfinished directories and all but the most recently used finished ones (never one used in the last 45 minutes)
     root = os.path.join(OUT, 'build'); done = []
     for d in os.listdir(root):
         dd = os.path.join(root, d)
@@ -193,7 +193,7 @@ def _build_locked(h, bdir, stamp, verbose):
         else: shutil.rmtree(dd, ignore_errors=True)      # a crashed build (builders are serialised by the lock)
     done.sort(reverse=True)
     for mt, dd in done[KEEP_BUILDS - 1:]:
-        if time.time() - mt > 7200: shutil.rmtree(dd, ignore_errors=True)
+        if time.time() - mt > 2700: shutil.rmtree(dd, ignore_errors=True)      # 45 min: longer than the longest check (C18 thorough, about 26 min) keeps a build in use
     if os.path.isdir(bdir): shutil.rmtree(bdir, ignore_errors=True)
     os.makedirs(bdir, exist_ok=True)
     jobs = []
